@@ -7,5 +7,6 @@ CONSTANTS
   Weights = {1, 2, 3}
   Depth = 8
   Emit = TRUE
+  FewVals = FALSE
 INVARIANTS Conservation NonNegative UnitIntegral Leaf
 CHECK_DEADLOCK FALSE
